@@ -16,7 +16,7 @@ import Memterm.Props.Extra
 #print axioms Memterm.Algebra.ich_compose
 #print axioms Memterm.Algebra.dch_compose
 #print axioms Memterm.Algebra.ed2_idempotent
-#print axioms Memterm.Algebra.Memterm.Algebra.cup_idempotent
+#print axioms Memterm.Algebra.cup_idempotent
 #print axioms Memterm.SaveRestore.save_restore
 #print axioms Memterm.SaveRestore.save_restore_id
 #print axioms Memterm.Extra.reset_idempotent
